@@ -901,82 +901,187 @@ package otto
 
 // The cloner's memo table: an object of the original is copied once; every later request
 // returns the same copy, and entries never change.
-// every object carries its class table (constructor invariant, assumed of the heap)
+// every object carries its class table (constructor invariant, assumed of the object a
+// clone is requested of; not stated for "all objects": quantifiers over pointers would also
+// range over objects a callee has yet to allocate)
 //@ spec classOK(x *object) bool = x.objectClass != nil && x.objectClass.clone != nil
-//@ spec heapClassOK(c *cloner) bool = c != nil && c.obj != nil && (forall x *object :: x != nil ==> classOK(x)) && (forall k *object :: has(c.obj, k) ==> c.obj[k] != nil)
+//@ spec heapClassOK(c *cloner) bool = c != nil && c.obj != nil && c.objectstash != nil && c.dclstash != nil && c.fnstash != nil && (forall k *object :: has(c.obj, k) ==> c.obj[k] != nil) && (forall k *dclStash :: has(c.dclstash, k) ==> c.dclstash[k] != nil)
+//@ spec memoGrows(c *cloner) bool = forall k *object :: old(has(c.obj, k)) ==> has(c.obj, k) && c.obj[k] == old(c.obj[k])
 
+// b is the copy of a: primitives are the same value, an object reference is the memo's
+// copy of the original's object (so the copy never points back into the original heap).
+//@ spec valOKC(v Value) bool = is(v.value, *object) ==> v.value.(*object) != nil
+//@ spec cloneOfV(c *cloner, a Value, b Value) bool = b.kind == a.kind && (!is(a.value, *object) ==> b == a) && (is(a.value, *object) ==> is(b.value, *object) && has(c.obj, a.value.(*object)) && c.obj[a.value.(*object)] == b.value.(*object))
+//@ spec cloneOfO(c *cloner, a *object, b *object) bool = (a == nil ==> b == nil) && (a != nil ==> has(c.obj, a) && c.obj[a] == b)
+//@ spec cloneOfP(c *cloner, a property, b property) bool = b.mode == a.mode && (is(a.value, Value) ==> is(b.value, Value) && cloneOfV(c, a.value.(Value), b.value.(Value))) && (is(a.value, propertyGetSet) ==> is(b.value, propertyGetSet) && cloneOfO(c, a.value.(propertyGetSet)[0], b.value.(propertyGetSet)[0]) && cloneOfO(c, a.value.(propertyGetSet)[1], b.value.(propertyGetSet)[1]))
+// what the cloner needs of a stored property: a Value or a get/set pair, object references non-nil
+//@ spec wfStoredC(p property) bool = (is(p.value, Value) || is(p.value, propertyGetSet)) && (is(p.value, Value) ==> valOKC(p.value.(Value)))
+
+// What no step of the cloner writes: any field of an object, environment record or runtime
+// that existed before the step (each step fills only what it allocated itself, or the one
+// object handed to it), the property tables and arrays of the original.
+//@ frameset cloneFrame = object.value, object.objectClass, object.prototype, object.property, object.class, object.propertyOrder, object.extensible, map(string;property), map(string;dclProperty), elems(string), elems(Value), objectStash.rt, objectStash.outr, objectStash.object, dclStash.rt, dclStash.outr, dclStash.property, fnStash.dclStash, fnStash.arguments, fnStash.indexOfArgumentName, runtime.global, runtime.globalObject, runtime.globalStash, runtime.stackLimit, runtime.traceLimit, runtime.debugger, runtime.random, runtime.scope, runtime.otto, runtime.eval
+
+//@ stablefield[C17] cloner.runtime writers=(*runtime).clone
 // the memo tables of a cloner are installed once by runtime.clone (and cleared at its end)
 //@ stablefield[C17] cloner.obj writers=(*runtime).clone
+//@ stablefield[C17] cloner.objectstash writers=(*runtime).clone
+//@ stablefield[C17] cloner.dclstash writers=(*runtime).clone
+//@ stablefield[C17] cloner.fnstash writers=(*runtime).clone
 
-// Inductive hypothesis for the class-specific clone slot (objectClone is proved against it
-// below): it fills and returns the object it was given and only adds to the memo table.
+// Contract of the class-specific clone slot; every function stored in that field is
+// proved against it (slotimpl obligation): it fills and returns the object it was given,
+// writes no other object and no property map of the original, and only adds to the memo.
 //@ slot objectClass.clone
+//@   props C17
+//@   requires arg0 != nil && arg1 != nil && arg0 != arg1 && arg0.prototype != arg1 && heapClassOK(arg2)
+//@   writes_only_at arg1.value, arg1.objectClass, arg1.prototype, arg1.property, arg1.class, arg1.propertyOrder, arg1.extensible
+//@   preserves map(string;property), map(string;dclProperty), elems(string), elems(Value), objectStash.rt, objectStash.outr, objectStash.object, dclStash.rt, dclStash.outr, dclStash.property, fnStash.dclStash, fnStash.arguments, fnStash.indexOfArgumentName, runtime.global, runtime.globalObject, runtime.globalStash, runtime.stackLimit, runtime.traceLimit, runtime.debugger, runtime.random, runtime.scope, runtime.otto, runtime.eval
 //@   ensures result == arg1
-//@   ensures forall x *object :: x != nil ==> classOK(x)
-//@   ensures forall k *object :: has(arg2.obj, k) ==> arg2.obj[k] != nil
-//@   ensures forall k *object :: old(has(arg2.obj, k)) ==> has(arg2.obj, k) && arg2.obj[k] == old(arg2.obj[k])
-//@   ensures arg2.obj == old(arg2.obj)
+//@   ensures heapClassOK(arg2)
+//@   ensures memoGrows(arg2)
+
+// Contract of stasher.clone (environment records), proved of all three record types.
+//@ slot stasher.clone
+//@   props C17
+//@   requires heapClassOK(arg1)
+//@   preserves @cloneFrame
+//@   ensures heapClassOK(arg1)
+//@   ensures memoGrows(arg1)
 
 //@ func (*cloner).object
 //@   props C17
 //@   requires heapClassOK(c) && in != nil
+//@   assumes in != nil ==> classOK(in)
+//@   fresh_refs
+//@   preserves @cloneFrame
+//@   ensures memoGrows(c)
 //@   ensures heapClassOK(c)
 //@   ensures result != nil && has(c.obj, in) && c.obj[in] == result
 //@   ensures old(has(c.obj, in)) ==> result == old(c.obj[in])
-//@   ensures forall k *object :: old(has(c.obj, k)) ==> has(c.obj, k) && c.obj[k] == old(c.obj[k])
 
 // A property is copied with the same attributes; a data value is passed through the
 // cloner; of an accessor BOTH sides are cloned, each exactly when it is present.
 //@ func (*cloner).property
 //@   props C17 C20
-//@   requires heapClassOK(c) && (is(in.value, Value) || is(in.value, propertyGetSet))
-//@   requires is(in.value, Value) && is(in.value.(Value).value, *object) ==> in.value.(Value).value.(*object) != nil
-//@   ensures result.mode == in.mode
-//@   calls (*cloner).object(c, in.value.(propertyGetSet)[0]) as g when is(in.value, propertyGetSet) && in.value.(propertyGetSet)[0] != nil
-//@   calls (*cloner).object(c, in.value.(propertyGetSet)[1]) as s when is(in.value, propertyGetSet) && in.value.(propertyGetSet)[1] != nil
-//@   ensures is(in.value, propertyGetSet) ==> is(result.value, propertyGetSet)
-//@   ensures is(in.value, propertyGetSet) && in.value.(propertyGetSet)[0] != nil ==> result.value.(propertyGetSet)[0] == g
-//@   ensures is(in.value, propertyGetSet) && in.value.(propertyGetSet)[1] != nil ==> result.value.(propertyGetSet)[1] == s
-//@   ensures is(in.value, propertyGetSet) && in.value.(propertyGetSet)[0] == nil ==> result.value.(propertyGetSet)[0] == nil
-//@   ensures is(in.value, propertyGetSet) && in.value.(propertyGetSet)[1] == nil ==> result.value.(propertyGetSet)[1] == nil
-//@   ensures is(in.value, Value) ==> is(result.value, Value) && result.value.(Value).kind == in.value.(Value).kind
+//@   requires heapClassOK(c) && wfStoredC(in)
+//@   preserves @cloneFrame
+//@   ensures memoGrows(c)
+//@   ensures heapClassOK(c)
+//@   ensures cloneOfP(c, in, result)
+//@   ensures wfStoredC(result)
 
 // A value is copied unchanged unless it is an object reference, which goes through the memo.
 //@ func (*cloner).value
 //@   props C17
+//@   requires heapClassOK(c) && valOKC(in)
+//@   preserves @cloneFrame
+//@   ensures memoGrows(c)
 //@   ensures heapClassOK(c)
-//@   requires heapClassOK(c) && (is(in.value, *object) ==> in.value.(*object) != nil)
-//@   ensures result.kind == in.kind
-//@   ensures !is(in.value, *object) ==> result == in
-//@   calls (*cloner).object(c, in.value.(*object)) as o when is(in.value, *object)
-//@   ensures is(in.value, *object) ==> is(result.value, *object) && result.value.(*object) == o
+//@   ensures cloneOfV(c, in, result) && valOKC(result)
 
-// Argument lists (bound functions): a fresh array of the same length; primitives are
-// copied as they are.
+// Argument lists (bound functions): a fresh array of the same length, element by element
+// the copy of the original's element.
 //@ func (*cloner).valueArray
 //@   props C17
-//@   requires heapClassOK(c) && (forall i int :: 0 <= i && i < len(in) && is(in[i].value, *object) ==> in[i].value.(*object) != nil)
+//@   requires heapClassOK(c) && (forall i int :: 0 <= i && i < len(in) ==> valOKC(in[i]))
+//@   preserves @cloneFrame
 //@   stable in
-//@   invariant@1 heapClassOK(c) && len(out) == len(in) && !samearray(out, in) && (forall j int :: 0 <= j && j <= $i && j < len(in) && !is(in[j].value, *object) ==> out[j] == in[j])
-//@   ensures len(result) == len(in) && !samearray(result, in)
-//@   ensures forall j int :: 0 <= j && j < len(in) && !is(in[j].value, *object) ==> result[j] == in[j]
+//@   invariant@1 heapClassOK(c) && memoGrows(c) && len(out) == len(in) && !samearray(out, in)
+//@   invariant@1 forall j int :: 0 <= j && j <= $i && j < len(in) ==> cloneOfV(c, in[j], out[j]) && valOKC(out[j])
+//@   ensures memoGrows(c)
+//@   ensures heapClassOK(c)
+//@   ensures len(result) == len(in) && (len(in) > 0 ==> !samearray(result, in))
+//@   ensures forall j int :: 0 <= j && j < len(in) ==> cloneOfV(c, in[j], result[j]) && valOKC(result[j])
+
+// A declarative binding: flags copied, the value through the cloner.
+//@ func (*cloner).dclProperty
+//@   props C17
+//@   requires heapClassOK(c) && valOKC(in.value)
+//@   preserves @cloneFrame
+//@   ensures memoGrows(c)
+//@   ensures heapClassOK(c)
+//@   ensures result.mutable == in.mutable && result.deletable == in.deletable && result.readable == in.readable
+//@   ensures cloneOfV(c, in.value, result.value) && valOKC(result.value)
+
+// An environment record reference: nil stays nil, anything else through its own clone.
+//@ func (*cloner).stash
+//@   props C17
+//@   requires heapClassOK(c)
+//@   preserves @cloneFrame
+//@   ensures memoGrows(c)
+//@   ensures heapClassOK(c)
+//@   ensures in == nil ==> result == nil
+
+//@ func (*cloner).objectStash
+//@   inline
+//@ func (*cloner).dclStash
+//@   inline
+//@ func (*cloner).fnStash
+//@   inline
+
+// The three environment records.  newObjectStash never leaves object nil; declarative
+// bindings hold Values (heap invariants of the interpreter, assumed here).
+//@ func (*objectStash).clone
+//@   props C17
+//@   implements stasher.clone
+//@   assumes s != nil && s.object != nil
+//@   ensures !old(has(c.objectstash, s)) ==> is(result, *objectStash) && result.(*objectStash) != s && result.(*objectStash).rt == c.runtime && cloneOfO(c, old(s.object), result.(*objectStash).object)
+
+//@ func (*dclStash).clone
+//@   props C17
+//@   implements stasher.clone
+//@   fresh_refs
+//@   assumes s != nil && (forall k string :: has(s.property, k) ==> valOKC(s.property[k].value))
+//@   invariant@1 heapClassOK(c) && memoGrows(c) && fresh(prop) && prop != nil && s.property == old(s.property) && !fresh(s.property)
+//@   invariant@1 forall k string :: has(s.property, k) ==> valOKC(s.property[k].value)
+//@   invariant@1 forall k string :: has(prop, k) ==> old(has(s.property, k)) && cloneOfV(c, old(s.property[k].value), prop[k].value) && prop[k].mutable == old(s.property[k].mutable)
+//@   ensures is(result, *dclStash) && result.(*dclStash) != nil
+//@   ensures !old(has(c.dclstash, s)) ==> result.(*dclStash) != s && result.(*dclStash).rt == c.runtime && result.(*dclStash).property != nil && result.(*dclStash).property != old(s.property)
+//@   ensures !old(has(c.dclstash, s)) ==> (forall k string :: has(result.(*dclStash).property, k) ==> old(has(s.property, k)))
+//@   ensures !old(has(c.dclstash, s)) ==> (forall k string :: has(result.(*dclStash).property, k) ==> cloneOfV(c, old(s.property[k].value), result.(*dclStash).property[k].value))
+
+//@ func (*fnStash).clone
+//@   props C17
+//@   implements stasher.clone
+//@   assumes s != nil && (forall k string :: has(s.dclStash.property, k) ==> valOKC(s.dclStash.property[k].value))
+//@   invariant@1 heapClassOK(c) && memoGrows(c) && index != nil && index != s.indexOfArgumentName
+//@   ensures !old(has(c.fnstash, s)) ==> is(result, *fnStash) && result.(*fnStash) != s && cloneOfO(c, old(s.arguments), result.(*fnStash).arguments)
+//@   ensures !old(has(c.fnstash, s)) ==> result.(*fnStash).indexOfArgumentName != nil && result.(*fnStash).indexOfArgumentName != old(s.indexOfArgumentName)
+
+// The arguments object payload: a fresh name table, the environment through the cloner.
+//@ func (argumentsObject).clone
+//@   props C17
+//@   requires heapClassOK(c)
+//@   preserves @cloneFrame
+//@   ensures memoGrows(c)
+//@   ensures heapClassOK(c)
+//@   ensures len(result.indexOfParameterName) == len(o.indexOfParameterName)
+//@   ensures len(o.indexOfParameterName) > 0 ==> !samearray(result.indexOfParameterName, o.indexOfParameterName)
+//@   ensures forall i int :: 0 <= i && i < len(o.indexOfParameterName) ==> result.indexOfParameterName[i] == old(o.indexOfParameterName[i])
+//@   ensures o.stash == nil ==> result.stash == nil
 
 // Copy yields a different Otto on a different runtime, without the interrupt channel of
 // the original (an interrupt queued for one must never reach the other).
 //@ func (*Otto).Copy
 //@   props C17 C20
 //@   requires o != nil && o.runtime != nil
-//@   ensures result != nil && result != o && result.runtime != nil && result.runtime != o.runtime
+//@   ensures result != nil && result != o
+//@   ensures result.runtime != nil
+//@   ensures result.runtime != old(o.runtime)
 //@   ensures result.Interrupt == nil
 //@   ensures result.runtime.otto == result
 
 // The copy of the runtime: limits and hooks are carried over, every well-known object of
 // the original is replaced by ITS OWN copy (position by position), the scope stack of the
 // copy is empty.
+// newContext installs every well-known object (assumed of the runtime handed to clone)
+//@ spec globalsSet(rt *runtime) bool = rt.globalObject != nil && rt.global.Object != nil && rt.global.Function != nil && rt.global.Array != nil && rt.global.String != nil && rt.global.Boolean != nil && rt.global.Number != nil && rt.global.Math != nil && rt.global.Date != nil && rt.global.RegExp != nil && rt.global.Error != nil && rt.global.EvalError != nil && rt.global.TypeError != nil && rt.global.RangeError != nil && rt.global.ReferenceError != nil && rt.global.SyntaxError != nil && rt.global.URIError != nil && rt.global.JSON != nil && rt.global.ObjectPrototype != nil && rt.global.FunctionPrototype != nil && rt.global.ArrayPrototype != nil && rt.global.StringPrototype != nil && rt.global.BooleanPrototype != nil && rt.global.NumberPrototype != nil && rt.global.DatePrototype != nil && rt.global.RegExpPrototype != nil && rt.global.ErrorPrototype != nil && rt.global.EvalErrorPrototype != nil && rt.global.TypeErrorPrototype != nil && rt.global.RangeErrorPrototype != nil && rt.global.ReferenceErrorPrototype != nil && rt.global.SyntaxErrorPrototype != nil && rt.global.URIErrorPrototype != nil
 //@ func (*runtime).clone
 //@   props C17 C20 C14 C02
 //@   nosafety
 //@   requires rt != nil
+//@   assumes globalsSet(rt)
 //@   fieldcover runtime ignore=lck,labels,otto,eval,globalStash,global
 //@   fieldcover global
 //@   ensures result != nil && result != rt
@@ -1050,22 +1155,39 @@ package otto
 //@   calls (*cloner).object(_, old(rt.global.URIErrorPrototype)) as mURIErrorPrototype
 //@   ensures result.global.URIErrorPrototype == mURIErrorPrototype
 
+// payload of a function object as the cloner needs it
+//@ spec payloadOKC(v interface{}) bool = is(v, bindFunctionObject) ==> v.(bindFunctionObject).target != nil && valOKC(v.(bindFunctionObject).this) && (forall i int :: 0 <= i && i < len(v.(bindFunctionObject).argumentList) ==> valOKC(v.(bindFunctionObject).argumentList[i]))
+
 // The copy of an ordinary object: same class, flags and class table; the runtime of the
 // copy; prototype through the memo; a FRESH property map and a FRESH property-order array
 // with the same names in the same order (sharing either would let the two runtimes see
-// each other's additions and deletions).
+// each other's additions and deletions); every stored property the copy of the original's.
 //@ func objectClone
 //@   props C17 C14 C20
-//@   requires in != nil && out != nil && in != out && heapClassOK(clone) && clone.runtime != nil
-//@   requires in.prototype != nil ==> in.prototype != out
+//@   implements objectClass.clone
+//@   assumes forall k string :: has(in.property, k) ==> wfStoredC(in.property[k])
+//@   assumes payloadOKC(in.value)
+//@   invariant@1 heapClassOK(clone) && memoGrows(clone)
+//@   invariant@1 out.runtime == clone.runtime
+//@   invariant@1 out.class == old(in.class) && out.extensible == old(in.extensible) && out.objectClass == old(in.objectClass) && in.value == old(in.value) && out.value == old(in.value)
+//@   invariant@1 cloneOfO(clone, old(in.prototype), out.prototype)
+//@   invariant@1 fresh(out.property) && out.property != nil && out.property != old(in.property) && in.property == old(in.property)
+//@   invariant@1 len(out.propertyOrder) == old(len(in.propertyOrder))
+//@   invariant@1 old(len(in.propertyOrder)) > 0 ==> !samearray(out.propertyOrder, old(in.propertyOrder))
+//@   invariant@1 forall i int :: 0 <= i && i < len(out.propertyOrder) ==> out.propertyOrder[i] == old(in.propertyOrder[i])
+//@   invariant@1 forall k string :: has(in.property, k) ==> wfStoredC(in.property[k])
+//@   invariant@1 forall k string :: has(out.property, k) ==> has(in.property, k) && cloneOfP(clone, in.property[k], out.property[k])
 //@   fieldcover object ignore=value
-//@   ensures result == out
 //@   ensures out.runtime == clone.runtime
 //@   ensures out.class == old(in.class) && out.extensible == old(in.extensible) && out.objectClass == old(in.objectClass)
-//@   ensures old(in.prototype) == nil ==> out.prototype == nil
+//@   ensures cloneOfO(clone, old(in.prototype), out.prototype)
 //@   ensures out.property != nil && out.property != old(in.property)
 //@   ensures len(out.propertyOrder) == old(len(in.propertyOrder))
 //@   ensures old(len(in.propertyOrder)) > 0 ==> !samearray(out.propertyOrder, old(in.propertyOrder))
-//@   ensures forall k *object :: old(has(clone.obj, k)) ==> has(clone.obj, k) && clone.obj[k] == old(clone.obj[k])
-//@   ensures forall x *object :: x != nil ==> classOK(x)
-//@   ensures forall k *object :: has(clone.obj, k) ==> clone.obj[k] != nil
+//@   ensures forall i int :: 0 <= i && i < len(out.propertyOrder) ==> out.propertyOrder[i] == old(in.propertyOrder[i])
+//@   ensures forall k string :: has(out.property, k) ==> old(has(in.property, k)) && cloneOfP(clone, old(in.property[k]), out.property[k])
+//@   ensures is(old(in.value), nativeFunctionObject) ==> out.value == old(in.value)
+//@   ensures is(old(in.value), bindFunctionObject) ==> is(out.value, bindFunctionObject) && cloneOfO(clone, old(in.value.(bindFunctionObject).target), out.value.(bindFunctionObject).target) && cloneOfV(clone, old(in.value.(bindFunctionObject).this), out.value.(bindFunctionObject).this)
+//@   ensures is(old(in.value), bindFunctionObject) ==> len(out.value.(bindFunctionObject).argumentList) == old(len(in.value.(bindFunctionObject).argumentList))
+//@   ensures is(old(in.value), nodeFunctionObject) ==> is(out.value, nodeFunctionObject) && out.value.(nodeFunctionObject).node == old(in.value.(nodeFunctionObject).node)
+//@   ensures is(old(in.value), argumentsObject) ==> is(out.value, argumentsObject)
